@@ -101,7 +101,8 @@ fn templates() -> Vec<&'static str> {
         "+{n}(a: int, b: string)", "{n}(a: int, b: string)", "+{n}(X) <- {r}(X, _)", "-{r}", "-{p}", ".kg", ".kg list", ".kg create {n}", ".kg use {k}", ".kg use {n}", ".kg drop {k}", ".rel", ".rel {r}", ".rel drop {r}", ".rule", ".rule list", ".rule {p}", ".rule def {p}",
         ".rule drop {p}", ".rule drop prefix p", ".rule edit {p} 1 {p}(X) <- {r}(_, X)", ".rule clear {p}", ".rule remove {p} 1", ".session", ".session clear", ".session drop 1", ".session drop tmp", ".index", ".index list", ".index create idx1 on vecs(v) metric cosine",
         ".index drop idx1", ".index stats idx1", ".index rebuild idx1", ".clear prefix {r}", ".compact", ".status", ".debug ?{r}(X, Y)", ".why ?{p}(X)", ".why full ?{p}(X)", ".why_not {p}(42)", ".agent examples", ".agent setup basics", ".agent start basics", ".agent what is a rule", ".help", ".quit", ".load /nonexistent/file.iql",
-        ".user list", ".user create mallory pw123456 admin", ".user drop alice", ".user password alice newpw12345", ".user role alice admin", ".apikey create k1", ".apikey list", ".apikey revoke k1", ".kg acl list", ".kg acl list {k}", ".kg acl grant {k} alice owner", ".kg acl revoke {k} alice",
+        ".user list", ".user create mallory pw123456 admin", ".user drop alice", ".user password alice newpw12345", ".user role alice admin", ".apikey create k1", ".apikey list", ".apikey revoke k1", ".kg acl list", ".kg acl list {k}", ".kg acl grant {k} alice owner", ".kg acl grant {k} alice editor", ".kg acl grant {k} alice viewer", ".kg acl grant {k} bob viewer", ".kg acl revoke {k} alice",
+        ".user create mallory2 pw123456 viewer", ".user role alice viewer", ".user role alice editor",
     ]
 }
 
@@ -114,9 +115,14 @@ fn rank_kg(r: &KgRole) -> u8 {
 }
 
 fn populate(h: &H) {
+    // users and ACLs live in the internal graph; they are persistent state too
+    h.h.bootstrap_auth();
+    let _ = h.h.handle_user_create("alice", "pw-123456789", "editor");
+    let _ = h.h.handle_user_create("bob", "pw-123456789", "viewer");
     let _ = h.exec("default", "+r[(1, 2), (2, 3), (3, 4)]\n+p(X) <- r(X, _)\n+typed(a: int, b: string)\n+typed(1, \"x\")\n+vecs(id: int, v: vector)\n+vecs(1, [1.0, 2.0])");
     let _ = h.exec("default", ".kg create other");
     let _ = h.exec("other", "+r[(10, 20)]\n+p(X) <- r(X, _)");
+    let _ = h.h.handle_kg_acl_grant("other", "alice", "editor");
 }
 
 pub fn run(ctx: &mut Ctx) {
